@@ -114,7 +114,7 @@ Proof.
       destruct (step_keys _ _ _ _) as [s2 |] eqn:E; try discriminate. okinv H.
       destruct (step_keys_char _ _ _ _ _ _ tr_csl_rb_ok tr_csl_rb_idem tr_csl_rb_total E k) as [[Hk Ch] | [_ Ch]]; [| left; exact Ch].
       change (kget (add_dlv s _) T k) with (kget s T k) in Ch.
-      destruct (kget s T k) eqn:Ek; cbn in Ch; inversion Ch; try (left; congruence).
+      destruct (kget s T k) eqn:Ek; cbn in Ch; inversion Ch; try (left; congruence). apply first_gone_In in Hk.
       right. right. right. split; auto. split; [left; auto |]. right. right. left. split; eauto.
   - (* resolve delivery *)
     cbn [stepr] in H. unfold step_rs_deliver in H. chks H.
